@@ -48,6 +48,7 @@ def _canon_generic(ty):
 
 
 MOVED = {}      # path on the analysed tree -> pinned path, for functions that moved to another module (filled by new_helpers)
+RENAMED = {}    # path on the analysed tree -> pinned path, for renamed functions whose parameters were also re-ordered / `&self` <-> `self`
 
 
 def _strip_paths(ty):
@@ -64,6 +65,7 @@ def new_helpers(prog, vocab):
     crate_mods = {v.split("::")[0] for v in vocab if not v.startswith("<")}
     missing = {}
     missing_sigs = {}
+    missing_paths = {}
     sigs = load_sigs()
     try:
         import json as _json, os as _os
@@ -77,6 +79,7 @@ def new_helpers(prog, vocab):
             # (parameter types, then - when pinned - the return type as a last element)
             missing_sigs.setdefault(v.rsplit("::", 1)[0], []).append(
                 ([_canon_generic(x) for x in sigs[v]] + (["-> " + _canon_generic(rets[v])] if v in rets else [])) if v in sigs else None)
+            missing_paths.setdefault(v.rsplit("::", 1)[0], []).append(v)
     # a function that *moved* to another module keeps its name (and the name of its impl type) and its signature while the
     # pinned path has vanished: it is the same function at a new address, not a new helper
     def _tailkey(path_):
@@ -180,12 +183,31 @@ def new_helpers(prog, vocab):
             ms_ = missing_sigs.get(pre, [])
             csr_ = cs_ + ["-> " + _canon_generic(b.local_ty(0))]
             hit_ = next((m_ for m_ in ms_ if m_ is not None and (m_ == csr_ or (m_ == cs_ and not (m_ and m_[-1].startswith("-> "))))), None)
+            if hit_ is None and len(cs_) >= 2:
+                # renamed *and* its parameters re-ordered / the receiver taken by value instead of by reference (a `Copy` type):
+                # the same parameter types up to order and `&`, all distinct, and the same return type
+                def _n(t_):
+                    return _strip_paths(re.sub(r"^&(?:'\w+ )?(?:mut )?", "", t_))
+                for i_, m_ in enumerate(ms_):
+                    if m_ is None or not (m_ and m_[-1].startswith("-> ")) or m_[-1] != csr_[-1]:
+                        continue
+                    mp_ = [_n(x_) for x_ in m_[:-1]]
+                    if sorted(mp_) == sorted(_n(x_) for x_ in cs_) and len(set(mp_)) == len(mp_):
+                        hit_ = m_
+                        RENAMED[sp_] = missing_paths[pre][i_]
+                        break
             if any(m_ is None for m_ in ms_) or hit_ is not None:
                 missing[pre] -= 1
                 if hit_ is not None:
-                    ms_.remove(hit_)
+                    i_ = ms_.index(hit_)
+                    ms_.pop(i_)
+                    if pre in missing_paths and i_ < len(missing_paths[pre]):
+                        missing_paths[pre].pop(i_)
                 elif None in ms_:
-                    ms_.remove(None)
+                    i_ = ms_.index(None)
+                    ms_.pop(i_)
+                    if pre in missing_paths and i_ < len(missing_paths[pre]):
+                        missing_paths[pre].pop(i_)
                 continue
         it_ = b.raw.get("impl_trait")
         if it_:
@@ -1169,6 +1191,76 @@ def desugar_combinators(raws, facts):
     return n
 
 
+def desugar_ctor_combinators(raws, facts):
+    """`opt.map_or(default, Enum::Variant)` and `opt.map(Enum::Variant)` with a one-field variant constructor of a crate enum as the
+    function are the `match` they stand for: `Some(v) => Enum::Variant(v)`, `None => default` (`None`). The constructor is a
+    function item without a body; as an aggregate the variant it builds is a fact the view can thread. Returns the count."""
+    ctors = {}
+    for a in facts.get("adts", []):
+        if a.get("kind") == "Enum":
+            for v in a["variants"]:
+                if len(v["fields"]) == 1:
+                    ctors[a["path"] + "::" + v["name"]] = (a["path"], v.get("idx", a["variants"].index(v)), v["name"], v["fields"][0]["name"])
+    n = 0
+    for path, raw in list(raws.items()):
+        B = raw["blocks"]
+        L = raw["locals"]
+        for b in range(len(B)):
+            blk = B[b]
+            t = blk["term"]
+            if t["k"] != "call" or blk["cleanup"] or t.get("t") is None or t["dest"]["p"]:
+                continue
+            fr = op_fn(t["func"])
+            if fr is None:
+                continue
+            nm = mir.tail2(fr["path"])
+            if nm not in ("Option::map_or", "Option::map") or len(t["args"]) != (3 if nm == "Option::map_or" else 2):
+                continue
+            ffr = op_fn(t["args"][-1])
+            vp = mir.op_place(t["args"][0])
+            if ffr is None or vp is None or vp["p"]:
+                continue
+            ct = ctors.get(strip_generics(ffr["path"]))
+            if ct is None:
+                continue
+            adt, vidx, vname, fname = ct
+            line = t.get("line")
+            L.append({"ty": "isize", "name": None})
+            l_d = len(L) - 1
+            L.append({"ty": "desugared::Payload", "name": None})
+            l_x = len(L) - 1
+            base = len(B)
+            SW, SOME, NONE, UNR = base, base + 1, base + 2, base + 3
+            dest = t["dest"]
+            exit_t = t["t"]
+            B.append({"cleanup": False, "stmts": [{"k": "assign", "place": {"l": l_d, "p": []}, "rv": {"discr": {"l": vp["l"], "p": []}}, "line": line, "exp": None, "inl": True}],
+                      "term": {"k": "switch", "op": {"move": {"l": l_d, "p": []}}, "targets": [[1, SOME], [0, NONE]], "otherwise": UNR, "line": line, "exp": None}})
+            payload = {"move": {"l": vp["l"], "p": [{"downcast": 1, "name": "Some"}, {"f": 0, "ty": "desugared::Payload", "name": "0", "variant": "Some", "adt": "core::option::Option"}]}}
+            inner = {"agg": {"kind": "adt", "adt": adt, "variant": vidx, "vname": vname, "fields": [fname], "ops": [{"move": {"l": l_x, "p": []}}]}}
+            some_st = [{"k": "assign", "place": {"l": l_x, "p": []}, "rv": {"use": payload}, "line": line, "exp": None, "inl": True}]
+            if nm == "Option::map_or":
+                some_st.append({"k": "assign", "place": copy.deepcopy(dest), "rv": inner, "line": line, "exp": None, "inl": True})
+                none_st = [{"k": "assign", "place": copy.deepcopy(dest), "rv": {"use": copy.deepcopy(t["args"][1])}, "line": line, "exp": None, "inl": True}]
+            else:
+                L.append({"ty": adt, "name": None})
+                l_v = len(L) - 1
+                some_st.append({"k": "assign", "place": {"l": l_v, "p": []}, "rv": inner, "line": line, "exp": None, "inl": True})
+                some_st.append({"k": "assign", "place": copy.deepcopy(dest), "rv": {"agg": {"kind": "adt", "adt": "core::option::Option", "variant": 1, "vname": "Some", "fields": ["0"],
+                                                                                          "ops": [{"move": {"l": l_v, "p": []}}]}}, "line": line, "exp": None, "inl": True})
+                none_st = [{"k": "assign", "place": copy.deepcopy(dest), "rv": {"agg": {"kind": "adt", "adt": "core::option::Option", "variant": 0, "vname": "None", "fields": [], "ops": []}},
+                            "line": line, "exp": None, "inl": True}]
+            B.append({"cleanup": False, "stmts": some_st, "term": {"k": "goto", "t": exit_t, "line": line, "exp": None}})
+            B.append({"cleanup": False, "stmts": none_st, "term": {"k": "goto", "t": exit_t, "line": line, "exp": None}})
+            B.append({"cleanup": False, "stmts": [], "term": {"k": "unreachable", "line": line, "exp": None}})
+            blk["term"] = {"k": "goto", "t": SW, "line": line, "exp": None, "desugared": nm}
+            raw.setdefault("thread_seeds", []).extend([dest["l"], vp["l"]])
+            dp_ = mir.op_place(t["args"][1]) if nm == "Option::map_or" else None
+            if dp_ is not None and not dp_["p"]:
+                raw["thread_seeds"].append(dp_["l"])       # which variant the default is
+            n += 1
+    return n
+
+
 def specialise_wrapped_closures(raws, facts):
     """A helper that takes `impl FnOnce(..)` and wraps it in a closure of its own (`queue(move |w| { let r = call(w); .. })`)
     hides what each caller's closure does behind one shared wrapper body. After the helper was inlined, the wrapper closure is
@@ -1708,7 +1800,7 @@ def permute_params(raws, facts, sigs):
     for path, raw in list(raws.items()):
         if raw.get("kind") not in ("fn", "assoc_fn"):
             continue
-        ps = sigs.get(strip_generics(path)) or sigs.get(MOVED.get(strip_generics(path), ""))
+        ps = sigs.get(strip_generics(path)) or sigs.get(MOVED.get(strip_generics(path), "")) or sigs.get(RENAMED.get(strip_generics(path), ""))
         n = raw["arg_count"]
         if not ps or len(ps) != n or n < 2:
             continue
@@ -2275,6 +2367,7 @@ def inlined_facts(facts, vocab=None):
     """returns (facts2, info) where facts2 is the helper-inlined view, or (None, info) when there is nothing to inline"""
     vocab = vocab if vocab is not None else load_vocab()
     _CRATE_ENUMS.clear()
+    RENAMED.clear()
     _CRATE_ENUMS.update(a["path"] for a in facts.get("adts", []) if a.get("kind") == "Enum")
     _IMPL_INDEX.clear()
     for im in facts.get("impls", []):
@@ -2318,7 +2411,11 @@ def inlined_facts(facts, vocab=None):
         info["desugared_extend"] += desugar_combinators(raws, facts)
     except Exception as e:       # the view stays without this normalisation
         info["desugar_combinators_error"] = repr(e)
-    if not helpers and not info["arm_split"] and not info["desugared_extend"] and not info.get("split_chains") and not info.get("peeled_map_loops"):
+    try:
+        info["desugared_ctor"] = desugar_ctor_combinators(raws, facts)
+    except Exception as e:
+        info["desugar_ctor_error"] = repr(e)
+    if not helpers and not info["arm_split"] and not info["desugared_extend"] and not info.get("split_chains") and not info.get("peeled_map_loops") and not info.get("desugared_ctor"):
         sigs = load_sigs()
         info["unbundled"] = (unbundle_params(raws, facts, sigs) + permute_params(raws, facts, sigs)) if sigs else []
         if not info["unbundled"]:
